@@ -12,6 +12,16 @@ import (
 const Rule = "consumer scenario = f(seed): brokers 1-3, partitions 1-3, pre-populated logs 0-20 records, start literal/oldest/newest, version 0.8.2-2.8 (message sets v0/v1, record batches), 1-5 records per fetch, per-fetch faults (drop, empty, error classes, no reply), leader move, reader pauses longer than MaxProcessingTime, interceptors, appends while consuming, optional early close. non-trivial = distinct (version class, fault kinds, slow reader, interceptors) with at least one delivered message"
 
 // RunAll runs the consumer scenarios of this worker.
+// OracleOnly runs consumer scenarios for their oracles alone (no trace lines for a model driver): used by checks whose
+// model driver does not replay the feeder's hook events.
+func OracleOnly(run *hlib.Run, prop string, sigPrefixes []string, n int) {
+	noTrace = true
+	RunAll(run, prop, sigPrefixes, n)
+	noTrace = false
+}
+
+var noTrace bool
+
 func RunAll(run *hlib.Run, prop string, sigPrefixes []string, n int) {
 	if n == 0 {
 		n = run.N
@@ -86,7 +96,7 @@ func RunAll(run *hlib.Run, prop string, sigPrefixes []string, n int) {
 		if total > 0 {
 			run.Nontrivial(fmt.Sprintf("%v|%v|%d|%d|%d|%d", sc.Version, ks, len(sc.SlowAt), sc.Icepts, sc.MaxRecs, total))
 		}
-		if !res.CloseHang {
+		if !res.CloseHang && !noTrace {
 			run.Emit("creset", "ok")
 			for _, l := range res.Trace {
 				run.Emit(l, "ok")
